@@ -51,6 +51,10 @@ static void on_free(const volatile void* p)
 }
 
 // ---- the element type -----------------------------------------------------------------------------
+// a constructor argument of PoolList::append(a1, ..., an): an integer, or a reference (held as a
+// pointer) to an existing instance that the constructor reads
+struct Src { const void* ref; int z; };
+
 template<int TAG> struct Tr
 {
   int* cell;
@@ -73,6 +77,25 @@ template<int TAG> struct Tr
   Tr() { init(0); ev("D%ld", id, 0); }
   explicit Tr(int v) { init(v); ev("V%ld=%ld", id, v); }
   Tr(const Tr& o) { int v = o.read(); init(v); ev("C%ld<%ld", id, o.id); }
+  // T(a1, ..., an): reads the arguments in order, payload = their sum
+  void make(const Src* a, int n)
+  {
+    int v = 0; long ids[8]; int nid = 0;
+    for(int i = 0; i < n; ++i) {
+      if(a[i].ref) { const Tr* r = (const Tr*)a[i].ref; v += r->read(); ids[nid++] = r->id; }
+      else v += a[i].z;
+    }
+    init(v);
+    ev("M%ld=%ld", id, v);
+    for(int i = 0; i < nid && g_evlen < EVCAP - 64; ++i) g_evlen += snprintf(g_ev + g_evlen, 24, "<%ld", ids[i]);
+  }
+  explicit Tr(Src a) { Src v[] = {a}; make(v, 1); }
+  Tr(Src a, Src b) { Src v[] = {a, b}; make(v, 2); }
+  Tr(Src a, Src b, Src c) { Src v[] = {a, b, c}; make(v, 3); }
+  Tr(Src a, Src b, Src c, Src d) { Src v[] = {a, b, c, d}; make(v, 4); }
+  Tr(Src a, Src b, Src c, Src d, Src e) { Src v[] = {a, b, c, d, e}; make(v, 5); }
+  Tr(Src a, Src b, Src c, Src d, Src e, Src f) { Src v[] = {a, b, c, d, e, f}; make(v, 6); }
+  Tr(Src a, Src b, Src c, Src d, Src e, Src f, Src g) { Src v[] = {a, b, c, d, e, f, g}; make(v, 7); }
   Tr& operator=(const Tr& o)
   {
     int v = o.read();
@@ -458,6 +481,101 @@ static bool do_remkey(int x, const char* s)
   return true;
 }
 
+// find(key) / find(value): the index of the element the returned iterator points at, -1 = end()
+template<typename C> static long index_of(C& c, const typename C::Iterator& it)
+{
+  long i = 0;
+  for(typename C::Iterator j = c.begin(), e = c.end(); j != e; ++j, ++i) if(j == it) return i;
+  return -1;
+}
+static bool do_find(int x, const char* s, long* found)
+{
+  Kind k = kindv[x];
+  if(k == POOLLIST) return false;
+  Arg a = parse_arg(s, has_key(k));
+  if(!a.mode) return false;
+  char kbuf[sizeof(K)] __attribute__((aligned(8)));
+  char vbuf[sizeof(V)] __attribute__((aligned(8)));
+  const K* kr = a.k; const V* vr = a.v;
+  K* kt = 0; V* vt = 0;
+  if(a.mode == 1) { if(has_key(k)) { kt = new(kbuf) K(a.z); kr = kt; } else { vt = new(vbuf) V(a.z); vr = vt; } }
+  g_win = 1;
+  switch(k) {
+  case ARRAY: { TA::Iterator it = AS(TA, x)->find(*vr); g_win = 0; *found = index_of(*AS(TA, x), it); break; }
+  case LIST: { TL::Iterator it = AS(TL, x)->find(*vr); g_win = 0; *found = index_of(*AS(TL, x), it); break; }
+  case MAP: { TM::Iterator it = AS(TM, x)->find(*kr); g_win = 0; *found = index_of(*AS(TM, x), it); break; }
+  case MULTIMAP: { TMM::Iterator it = AS(TMM, x)->find(*kr); g_win = 0; *found = index_of(*AS(TMM, x), it); break; }
+  case HASHMAP: { THM::Iterator it = AS(THM, x)->find(*kr); g_win = 0; *found = index_of(*AS(THM, x), it); break; }
+  case HASHSET: { THS::Iterator it = AS(THS, x)->find(*kr); g_win = 0; *found = index_of(*AS(THS, x), it); break; }
+  case POOLMAP: { TPM::Iterator it = AS(TPM, x)->find(*kr); g_win = 0; *found = index_of(*AS(TPM, x), it); break; }
+  default: break;
+  }
+  g_win = 0;
+  if(vt) vt->~V();
+  if(kt) kt->~K();
+  return true;
+}
+
+// PoolList::append(a1, ..., an): every argument is a Src (an integer, or a pointer to a stored value)
+static bool do_emplace(int x, vh::Tok& t)
+{
+  int n = t.n - 2;
+  if(kindv[x] != POOLLIST || n < 0 || n > 7) return false;
+  Src a[7];
+  for(int i = 0; i < n; ++i) {
+    Arg g = parse_arg(t.v[2 + i], false);
+    if(!g.mode) return false;
+    a[i].ref = g.mode == 2 ? (const void*)g.v : 0; a[i].z = g.z;
+  }
+  TPL& l = *AS(TPL, x);
+  g_win = 1;
+  switch(n) {
+  case 0: l.append(); break;
+  case 1: l.append(a[0]); break;
+  case 2: l.append(a[0], a[1]); break;
+  case 3: l.append(a[0], a[1], a[2]); break;
+  case 4: l.append(a[0], a[1], a[2], a[3]); break;
+  case 5: l.append(a[0], a[1], a[2], a[3], a[4]); break;
+  case 6: l.append(a[0], a[1], a[2], a[3], a[4], a[5]); break;
+  case 7: l.append(a[0], a[1], a[2], a[3], a[4], a[5], a[6]); break;
+  }
+  g_win = 0;
+  return true;
+}
+
+// Map / MultiMap::insert(position, key, value).  The MultiMap call whose result depends on the tree
+// shape (key of the hinted item <= key, key of the item behind it == key) is not made.
+template<typename C> static bool hint_tie(C& c, long h, int kz)
+{
+  long n = (long)c.size();
+  if(h + 1 >= n) return false;
+  typename C::Iterator it = iter_at(c, h), nx = iter_at(c, h + 1);
+  return it.key().peek() <= kz && nx.key().peek() == kz;
+}
+static bool do_inshint(int x, Pos p, Arg ka, Arg va)
+{
+  Kind k = kindv[x];
+  if(k != MAP && k != MULTIMAP) return false;
+  if(!ka.mode || !va.mode) return false;
+  long n = size_of(x);
+  long h = p.mode == 0 ? 0 : p.mode == 1 ? n : (p.i < n ? p.i : n);
+  int kz = ka.mode == 1 ? ka.z : ka.k->peek();
+  if(k == MULTIMAP && hint_tie(*AS(TMM, x), h, kz)) return false;
+  char kbuf[sizeof(K)] __attribute__((aligned(8)));
+  char vbuf[sizeof(V)] __attribute__((aligned(8)));
+  const K* kr = 0; const V* vr = 0;
+  K* kt = 0; V* vt = 0;
+  if(ka.mode == 1) { kt = new(kbuf) K(ka.z); kr = kt; } else kr = ka.k;
+  if(va.mode == 1) { vt = new(vbuf) V(va.z); vr = vt; } else vr = va.v;
+  g_win = 1;
+  if(k == MAP) AS(TM, x)->insert(pos_iter(*AS(TM, x), p), *kr, *vr);
+  else AS(TMM, x)->insert(pos_iter(*AS(TMM, x), p), *kr, *vr);
+  g_win = 0;
+  if(vt) vt->~V();
+  if(kt) kt->~K();
+  return true;
+}
+
 static void op(long c, long, vh::Tok& t)
 {
   g_evlen = 0; g_ev[0] = 0;
@@ -619,6 +737,53 @@ static void op(long c, long, vh::Tok& t)
     if(livev(x)) did = do_rematit((int)x, atol(t.v[2]));
   } else if(!strcmp(o, "rempop") && t.n == 3) {
     if(livev(x)) did = do_rempop((int)x, !strcmp(t.v[2], "f"));
+  } else if(!strcmp(o, "newcap") && t.n == 4) {
+    Kind k = kind_of(t.v[2]);
+    usize cap = (usize)atol(t.v[3]);
+    if(x >= 0 && x < NV && kindv[x] == DEADV && (k == ARRAY || k == HASHMAP || k == HASHSET || k == POOLMAP)) {
+      g_win = 1;
+      switch(k) {
+      case ARRAY: new(AS(TA, x)) TA(cap); break;
+      case HASHMAP: new(AS(THM, x)) THM(cap); break;
+      case HASHSET: new(AS(THS, x)) THS(cap); break;
+      case POOLMAP: new(AS(TPM, x)) TPM(cap); break;
+      default: break;
+      }
+      g_win = 0;
+      kindv[x] = k; did = true;
+    }
+  } else if(!strcmp(o, "find") && t.n == 3) {
+    long found = -1;
+    if(livev(x)) did = do_find((int)x, t.v[2], &found);
+    if(did) {
+      char tok[32];
+      if(found >= 0) snprintf(tok, sizeof tok, "ok@%ld", found); else snprintf(tok, sizeof tok, "ok@-");
+      line(c, tok);
+      return;
+    }
+  } else if(!strcmp(o, "emplace") && t.n >= 2) {
+    if(livev(x)) did = do_emplace((int)x, t);
+  } else if(!strcmp(o, "appvals") && t.n >= 2 && t.n <= 2 + 64) {
+    if(livev(x) && kindv[x] == ARRAY) {
+      int n = t.n - 2;
+      static char buf[sizeof(V) * 64] __attribute__((aligned(16)));
+      V* b = (V*)(void*)buf;
+      for(int i = 0; i < n; ++i) new(b + i) V(atoi(t.v[2 + i]));
+      g_win = 1;
+      AS(TA, x)->append((const V*)b, (usize)n);
+      g_win = 0;
+      for(int i = n - 1; i >= 0; --i) b[i].~V();
+      did = true;
+    }
+  } else if(!strcmp(o, "inshint") && t.n == 5) {
+    if(livev(x)) did = do_inshint((int)x, parse_pos(t.v[2]), parse_arg(t.v[3], true), parse_arg(t.v[4], false));
+  } else if(!strcmp(o, "sort") && t.n == 2) {
+    if(livev(x) && kindv[x] == LIST) {
+      g_win = 1;
+      AS(TL, x)->sort();
+      g_win = 0;
+      did = true;
+    }
   } else {
     printf("%ld ?unknown-op\n", c);
     return;
